@@ -260,8 +260,10 @@ pub enum Oracle {
     P,
     /// a waker invocation panicked (C01)
     WakerPanic,
-    /// exactly-once ownership (C02)
+    /// exactly-once ownership of children (C02)
     D,
+    /// exactly-once ownership of produced values (C02)
+    DV,
     /// poll discipline (C03)
     Q,
     /// selectivity (C16)
@@ -286,7 +288,7 @@ impl Oracle {
     pub fn property(self) -> &'static str {
         match self {
             Oracle::L | Oracle::P | Oracle::WakerPanic => "C01",
-            Oracle::D => "C02",
+            Oracle::D | Oracle::DV => "C02",
             Oracle::Q => "C03",
             Oracle::S => "C16",
             Oracle::Conc => "C20",
@@ -317,6 +319,9 @@ impl Oracle {
 pub struct Violation {
     pub oracle: Oracle,
     pub msg: String,
+    /// ownership violations: family of the combinator that owned the child /
+    /// the child that produced the value
+    pub fam: Option<Family>,
 }
 
 /// The task waker the harness executor hands to the top-level combinator.
@@ -462,7 +467,8 @@ impl World {
                 t.drops += 1;
                 if t.drops > 1 {
                     let m = format!("value t{} dropped {} times", id, t.drops);
-                    self.violate(Oracle::D, m);
+                    let f = self.tok_family(id);
+                    self.violate_f(Oracle::DV, f, m);
                     continue;
                 }
                 match &t.kind {
@@ -475,8 +481,10 @@ impl World {
                 }
             } else {
                 self.unknown_tok_drops += 1;
-                self.violate(
-                    Oracle::D,
+                let f = self.tok_family(id);
+                self.violate_f(
+                    Oracle::DV,
+                    f,
                     format!(
                         "a value that no child produced was dropped (handle {:#x}): an output slot that does not hold a child's value was read",
                         id
@@ -492,12 +500,28 @@ impl World {
     }
 
     pub fn violate(&mut self, oracle: Oracle, msg: String) {
+        self.violate_f(oracle, None, msg)
+    }
+
+    pub fn violate_f(&mut self, oracle: Oracle, fam: Option<Family>, msg: String) {
         if self.viol.len() < 64 {
             if self.trace_on {
                 self.trace.push(format!("  !! {:?}: {}", oracle, msg));
             }
-            self.viol.push(Violation { oracle, msg });
+            self.viol.push(Violation { oracle, msg, fam });
         }
+    }
+
+    /// family of the combinator that owns node `id`
+    pub fn owner_family(&self, id: NodeId) -> Option<Family> {
+        self.nodes.get(id).and_then(|n| n.parent).and_then(|p| self.nodes[p].family())
+    }
+
+    /// family of the combinator whose child produced token `t` (the top-level
+    /// combinator's family when the token is unknown or a harness composite)
+    pub fn tok_family(&self, t: u32) -> Option<Family> {
+        let by_producer = self.toks.get(t as usize).and_then(|r| r.producer).and_then(|n| self.owner_family(n));
+        by_producer.or_else(|| self.top.and_then(|t| self.nodes[t].family()))
     }
 
     pub fn new_node(&mut self, parent: Option<NodeId>, index: usize, kind: NodeKind) -> NodeId {
@@ -609,7 +633,8 @@ impl World {
         }
         if self.nodes[id].dropped_at.is_some() {
             let m = format!("{} polled after it was dropped", self.path(id));
-            self.violate(Oracle::D, m);
+            let f = self.owner_family(id);
+            self.violate_f(Oracle::D, f, m);
         }
         {
             let mut cur = self.nodes[id].parent;
@@ -934,7 +959,8 @@ pub fn node_dropped(id: NodeId) {
         n.drops += 1;
         if n.drops > 1 {
             let m = format!("{} dropped {} times", w.path(id), w.nodes[id].drops);
-            w.violate(Oracle::D, m);
+            let f = w.owner_family(id);
+            w.violate_f(Oracle::D, f, m);
         } else {
             n.dropped_at = Some(now);
         }
@@ -951,7 +977,8 @@ pub fn node_dropped(id: NodeId) {
                     w.path(k),
                     w.path(id)
                 );
-                w.violate(Oracle::D, m);
+                let f = w.nodes[id].family();
+                w.violate_f(Oracle::D, f, m);
             }
         }
     });
